@@ -144,10 +144,70 @@ func (c *c19ctx) familyB() {
 	c.injectB1(sub / 2)
 }
 
+// injectCSV: a malformed record in the middle of a CSV / TSV file (wrong number of fields, a quote that never
+// closes, a bare quote): yq must end with an error, not with the records it managed to read.
+func (c *c19ctx) injectCSV() {
+	c.group = "B-inject"
+	tsv := c.r.IntN(3) == 0
+	sep, ext := ",", "csv"
+	if tsv {
+		sep, ext = "\t", "tsv"
+	}
+	c.tag("kind:syntax", "input:"+ext)
+	nf := 1 + c.r.IntN(3)
+	j := c.r.IntN(nf)
+	var names []string
+	var firsts []string
+	for fi := 0; fi < nf; fi++ {
+		rows := 2 + c.r.IntN(3)
+		var sb strings.Builder
+		sb.WriteString("a" + sep + "b\n")
+		bad := 1 + c.r.IntN(rows) // the malformed record comes after `bad` good ones (1..rows)
+		for ri := 0; ri < rows; ri++ {
+			v := c.str().S
+			if ri == 0 {
+				firsts = append(firsts, v)
+			}
+			sb.WriteString(v + sep + fmt.Sprint(c.r.IntN(90)) + "\n")
+			if fi == j && ri == bad-1 {
+				sb.WriteString([]string{"x" + sep + "y" + sep + "z", "\"never closed" + sep + "1", "lonely", "q" + sep + "\"half"}[c.r.IntN(4)] + "\n")
+			}
+		}
+		name := fmt.Sprintf("f%d.%s", fi, ext)
+		c.write(name, sb.String())
+		names = append(names, name)
+	}
+	what := fmt.Sprintf("malformed %s record in file %d of %d", ext, j, nf)
+	x := c.yq(nil, append([]string{"-o=json", "-I0", ".[0].a"}, names...)...)
+	if x.TimedOut {
+		return
+	}
+	if !c.failedProperly(x, what) {
+		return
+	}
+	got, err := ref.ParseJSONStream(string(x.Stdout))
+	if err != nil || len(got) > j {
+		c.violate("%s: stdout of the failed run holds %d results (err=%v), only %d files precede the failure: %q", what, len(got), err, j, clipStr(string(x.Stdout), 300))
+		return
+	}
+	for i := range got {
+		if got[i].K != ref.Str || got[i].S != firsts[i] {
+			c.violate("%s: result #%d printed before the failure is %s, expected %q", what, i, got[i].JSON(), firsts[i])
+			return
+		}
+	}
+	c.res.Nontrivial = true
+	c.say(what + " -> exit != 0 with a message")
+}
+
 func (c *c19ctx) injectB1(n int) {
 	c.group = "B-inject"
 	kinds := []string{"syntax", "missing", "dir", "type", "encode"}
 	kind := kinds[n%len(kinds)]
+	if kind == "syntax" && c.r.IntN(2) == 0 {
+		c.injectCSV()
+		return
+	}
 	if kind == "dir" && c.r.IntN(2) == 0 {
 		kind = "syntax"
 	}
@@ -279,6 +339,12 @@ func (c *c19ctx) injectB1(n int) {
 	ok := true
 	for _, mode := range modes {
 		argv := append(append(append([]string{}, mode...), "-o=json", "-I0", expr), args...)
+		if jsonStream {
+			argv = append([]string{"-p=json"}, argv...) // (stdin has no extension to take the format from)
+			if len(mode) > 0 {
+				argv = append(append(append(append([]string{}, mode...), "-p=json"), "-o=json", "-I0", expr), args...)
+			}
+		}
 		x := c.yq(stdin, argv...)
 		if x.TimedOut {
 			return
